@@ -119,5 +119,31 @@ func Verif_C01_threeKeysLeaves() {
 		}
 	}
 	verifAssert(n == live, "each live pair enumerated exactly once")
+
+	// the map behaviour continues after the commit, on the committed trie (nodes beyond the in-memory level are
+	// collapsed) and on a trie recreated from the root (every node collapsed)
+	rec, err := tr.Recreate(root)
+	verifAssert(err == nil && rec != nil, "recreate from the committed root")
+	before := make([][]byte, 3)
+	for i := 0; i < 3; i++ {
+		before[i], _ = tr.Get(keys[i])
+	}
+	k4 := verifKey("k4", kl)
+	v4 := verifBytes("v4", 1)
+	verifAssert(tr.Update(k4, v4) == nil, "update after commit ok")
+	verifAssert(rec.Update(k4, v4) == nil, "update on the recreated trie ok")
+	for i := 0; i < 3; i++ {
+		exp := before[i]
+		if eqBytes(keys[i], k4) {
+			exp = v4
+		}
+		g1, e1 := tr.Get(keys[i])
+		g2, e2 := rec.Get(keys[i])
+		verifAssert(e1 == nil && eqBytes(g1, exp), "after the commit: get returns the last value written")
+		verifAssert(e2 == nil && eqBytes(g2, exp), "recreated trie: get returns the last value written")
+	}
+	g1, _ := tr.Get(k4)
+	g2, _ := rec.Get(k4)
+	verifAssert(eqBytes(g1, v4) && eqBytes(g2, v4), "the key written after the commit reads back")
 	verifReach("end")
 }
